@@ -91,10 +91,23 @@ class Exec(StmtMixin):
         for g, (ty, init) in c.ghosts.items():
             st.ghost[g] = T.coerce(self.spec_eval(init, st, old=st), ty) if init is not None else self.fresh(ty, g)
         self.entry = st.copy()
+        for lbl, e in self.class_inv(c.self_cls, assumed=True) if (c.self_cls and not c.no_class_inv) else []:
+            st.assume(self.spec_assume(e, st, old=self.entry))
         for lbl, e in c.requires_:
             st.assume(self.spec_assume(e, st, old=self.entry))
         self.entry = st.copy()
         return st
+
+    def class_inv(self, cls, assumed=False):
+        cm = C.CLASSES.get(cls)
+        if cm is None:
+            return []
+        out = [("inv:" + l, e) for l, e in cm.invariants]
+        if assumed:
+            for l, e in cm.assumed:
+                out.append(("assumed:" + l, e))
+                self.trusted_used.add("assumed invariant of %s (%s): %s" % (cls, l, e))
+        return out
 
     # ------------------------------------------------------------------- run
     def run(self):
@@ -152,7 +165,8 @@ class Exec(StmtMixin):
             if exact and when:
                 g = z3.Not(self.spec_bool(when, self.entry, old=self.entry))
                 self.oblige(st, "raises", "%s:must-raise" % lbl, g, line, assume=False)
-        for lbl, e in c.ensures_:
+        auto = self.class_inv(c.self_cls) if (c.self_cls and not c.no_class_inv) else []
+        for lbl, e in auto + list(c.ensures_):
             g = self.spec_bool(e, st, extra=extra, old=self.entry)
             self.oblige(st, "post", lbl, g, line, assume=False)
 
